@@ -265,6 +265,64 @@ func seqCase(k *engine.Case, unit bool) {
 		}
 	}
 	c := &seqChecker{k: k, s: s, m: newIdeal(cap0, unit), prefix: s.Name()}
+	// a bystander: in half of the cases a second cache of the same type (roomy, never evicting)
+	// is used between the steps with the same keys, checked against a plain map. Caches are
+	// independent: whatever travels between instances shows in the lock-step comparison of the
+	// cache under test or here. (Own PRNG: the program of the cache under test stays what the
+	// case seed determines.)
+	rb := rand.New(rand.NewSource(int64(k.Seed ^ 0x5bd1e9955bd1e995)))
+	var by sut
+	byM := map[interface{}]*val{}
+	if rb.Intn(2) == 0 {
+		switch {
+		case unit:
+			by = tinySut{tiny.NewLRUCache(1 << 40)}
+		default:
+			by = lruSut{cache.NewLRUCache(1 << 40)}
+		}
+		k.Count(c.prefix+"_histories_with_bystander", 1)
+	}
+	byID := 1 << 20
+	poke := func() {
+		if by == nil || c.bad || rb.Intn(3) != 0 {
+			return
+		}
+		key := keys[rb.Intn(len(keys))]
+		what := ""
+		switch x := rb.Intn(8); {
+		case x < 4:
+			byID++
+			v := &val{id: byID, sz: 1 + rb.Intn(3)}
+			by.Set(key, v)
+			byM[key] = v
+			what = fmt.Sprintf("Set(%s,%s)", keyStr(key), v)
+		case x < 6:
+			g := by.Delete(key)
+			_, w := byM[key]
+			delete(byM, key)
+			what = fmt.Sprintf("Delete(%s) -> %v", keyStr(key), g)
+			if g != w {
+				c.fail("bystander", "second cache of the same type (capacity 2^40): %s, a map gives %v", what, w)
+				return
+			}
+		case x < 7:
+			_, _ = by.Get(key)
+			what = fmt.Sprintf("Get(%s)", keyStr(key))
+		default:
+			by.Clear()
+			byM = map[interface{}]*val{}
+			what = "Clear()"
+		}
+		probe := keys[rb.Intn(len(keys))]
+		gv, gok := by.Peek(probe)
+		wv, wok := byM[probe]
+		k.Logf("   (second cache: %s; Peek(%s) -> %s,%v; Length %d)", what, keyStr(probe), gv, gok, by.Length())
+		k.Count(c.prefix+"_bystander_steps", 1)
+		if gok != wok || (wok && gv != wv) || by.Length() != int64(len(byM)) {
+			c.fail("bystander", "second cache of the same type (capacity 2^40, never full) after %s: Peek(%s) = %s,%v and Length() = %d; a map gives %s,%v and %d entries",
+				what, keyStr(probe), gv, gok, by.Length(), wv, wok, len(byM))
+		}
+	}
 	if cap0 > 1<<60 {
 		k.Count(c.prefix+"_constructed_with_maxint64", 1)
 	}
@@ -290,6 +348,10 @@ func seqCase(k *engine.Case, unit bool) {
 		}
 	}()
 	for i := 0; i < nops && !c.bad; i++ {
+		poke()
+		if c.bad {
+			break
+		}
 		op := pickOp(r)
 		key := keys[r.Intn(len(keys))]
 		m := c.m
